@@ -273,6 +273,8 @@ def run(chk):
     for k in (["kind:root handler", "wide:warnings"] if quick else ["kind:root handler", "wide:warnings", "wide:dynamic", "wide:const", "wide:errors"]):
         for m in comments_everywhere(base[k]):
             inputs.append(("comment in " + k, m, True))
+    inputs += [("edge:self action", HEAD + "QMenu { actions: [menuAction()] }\n", True), ("edge:this action", HEAD + "QWidget { QMenu { actions: [this.menuAction()] } }\n", True),
+               ("edge:this buddy", HEAD + "QWidget { QLabel { buddy: this } }\n", True)]
     inputs += [("edge:empty", "", True), ("edge:nul", "\x00", True), ("edge:bom", "﻿" + base["kind:nothing dynamic"], True), ("edge:only import", HEAD, True),
                ("edge:crlf", base["kind:root handler"].replace("\n", "\r\n"), True), ("edge:long line", HOSTS[0] % ('"' + "x" * 100000 + '"'), True),
                ("edge:many objects", HEAD + "QWidget { " + "QLabel { } " * 3000 + "}\n", True), ("edge:tabs", HOSTS[0] % "\t\"x\"\t", True)]
